@@ -115,7 +115,8 @@ def assortativity_wei(CIJ, flag=0):
         stri = str[i]
         strj = str[j]
     else:
-        ist, ost = strengths_dir(CIJ)  # directed version
+        ist = np.sum(CIJ, axis=0)  # directed version: in-strength
+        ost = np.sum(CIJ, axis=1)  # out-strength
         i, j = np.where(CIJ > 0)
         K = len(i)
 
@@ -130,7 +131,7 @@ def assortativity_wei(CIJ, flag=0):
             strj = ost[j]
         elif flag == 4:
             stri = ist[i]
-            strj = ost[j]
+            strj = ist[j]
         else:
             raise ValueError('Flag must be 0-4')
 
